@@ -2,7 +2,9 @@ import Pymeeus.Refine.Weekday
 import Pymeeus.Refine.Sidereal
 import Pymeeus.Props.C01
 import Pymeeus.Refine.SiderealIAU
+import Pymeeus.Refine.SiderealRate
 import Pymeeus.Refine.SiderealApparent
+import Pymeeus.Refine.SiderealApparentPast
 /-
 C16 — Weekday, day of year, fractional year and sidereal time follow the JDE.
 
@@ -39,6 +41,36 @@ theorem every_jde_is_an_instant (j : ℚ) (hj : -1 / 2 ≤ j) :
   have hfr : (⌊j + 1 / 2⌋ : ℚ) + Int.fract (j + 1 / 2) = j + 1 / 2 := Int.floor_add_fract _
   linarith
 
+
+/-- "building an Epoch … and reading the date back returns exactly that date" at ANY time of day: date + day fraction
+    `0 ≤ f < 1` reads back as the same date and the same fraction (the century step of `get_date` is taken on the
+    integer day number, not on the instant). -/
+theorem roundtrip_instant (y m d : Int) (f : ℚ) (h : Valid y m d) (hf0 : 0 ≤ f) (hf1 : f < 1) :
+    get_date (compute_jde y m ((d : ℚ) + f)) = .ok (y, m, (d : ℚ) + f) := by
+  rw [compute_jde_frac y m d f hf0 hf1 h]
+  exact get_date_valid y m d f h hf0 hf1
+
+/-- `get_date` is total on the documented domain and always returns a date of the civil calendar: for EVERY rational
+    JDE ≥ −0.5 it returns a valid civil date plus a day fraction in [0, 1), and that date-time builds the same JDE. -/
+theorem get_date_total (j : ℚ) (hj : -1 / 2 ≤ j) :
+    ∃ y m d : Int, ∃ f : ℚ, Valid y m d ∧ 0 ≤ f ∧ f < 1 ∧ get_date j = .ok (y, m, (d : ℚ) + f) ∧
+      compute_jde y m ((d : ℚ) + f) = j := by
+  have hn : 0 ≤ ⌊j + 1 / 2⌋ := by rw [Int.floor_nonneg]; linarith
+  obtain ⟨y, m, d, hv, hc⟩ := C01.surjective ⌊j + 1 / 2⌋.toNat
+  have hf0 := Int.fract_nonneg (j + 1 / 2)
+  have hf1 := Int.fract_lt_one (j + 1 / 2)
+  have hj' : compute_jde y m ((d : ℚ) + Int.fract (j + 1 / 2)) = j := by
+    rw [compute_jde_frac y m d _ hf0 hf1 hv]
+    rw [compute_jde_int y m d hv] at hc
+    have e : ((⌊j + 1 / 2⌋.toNat : Nat) : ℚ) = ((⌊j + 1 / 2⌋ : Int) : ℚ) := by
+      have : ((⌊j + 1 / 2⌋.toNat : Nat) : Int) = ⌊j + 1 / 2⌋ := Int.toNat_of_nonneg hn
+      exact_mod_cast this
+    rw [e] at hc
+    have hfr : (⌊j + 1 / 2⌋ : ℚ) + Int.fract (j + 1 / 2) = j + 1 / 2 := Int.floor_add_fract _
+    linarith
+  refine ⟨y, m, d, Int.fract (j + 1 / 2), hv, hf0, hf1, ?_, hj'⟩
+  have := roundtrip_instant y m d _ hv hf0 hf1
+  rwa [hj'] at this
 
 /-! ### Weekday -/
 
@@ -208,6 +240,52 @@ theorem year_strictly_increasing (y1 m1 d1 y2 m2 d2 : Int) (f1 f2 : ℚ) (h1 : V
     have q : ((jdnI y2 m2 d2 : Int) : ℚ) + 1 ≤ ((jdnI y1 m1 d1 : Int) : ℚ) := by exact_mod_cast this
     linarith
 
+/-- an instant before 10000-01-01 0h (JDE 5373484.5) has a calendar year ≤ 9999 -/
+theorem year_le_9999_of_jde (y m d : Int) (f : ℚ) (h : Valid y m d) (hf0 : 0 ≤ f) (hf1 : f < 1)
+    (hj : compute_jde y m ((d : ℚ) + f) < 5373484.5) : y ≤ 9999 := by
+  by_contra hy
+  have hy' : 10000 ≤ y := by omega
+  have h0 : jdnI 10000 1 1 = 5373485 := by decide +kernel
+  have h1 : jdnI 10000 1 1 ≤ jdnI y m d := by
+    rcases eq_or_lt_of_le hy' with he | hl
+    · subst he; exact (jdnI_in_year 10000 m d h).1
+    · exact le_of_lt (jdnI_lt_of_year_lt 10000 1 1 y m d (valid_jan1 10000 (by omega)) h hl)
+  rw [compute_jde_frac y m d f hf0 hf1 h] at hj
+  have : (5373485 : ℚ) ≤ (jdnI y m d : ℚ) := by exact_mod_cast (by omega : (5373485 : Int) ≤ jdnI y m d)
+  norm_num at hj
+  linarith
+
+/-- "the fractional year is strictly increasing in JDE with integer part equal to the calendar year", in the property's own
+    quantifier: ANY two rational JDEs −0.5 ≤ j₁ < j₂ < 5373484.5 (10000-01-01, where CPython's datetime stops) -/
+theorem year_strictly_increasing_in_jde (j1 j2 : ℚ) (h0 : -1 / 2 ≤ j1) (hlt : j1 < j2) (hmax : j2 < 5373484.5) :
+    ∃ v1 v2, year j1 = .ok v1 ∧ year j2 = .ok v2 ∧ v1 < v2 := by
+  obtain ⟨y1, m1, d1, f1, hv1, a1, b1, e1⟩ := every_jde_is_an_instant j1 h0
+  obtain ⟨y2, m2, d2, f2, hv2, a2, b2, e2⟩ := every_jde_is_an_instant j2 (by linarith)
+  have hy2 := year_le_9999_of_jde y2 m2 d2 f2 hv2 a2 b2 (by rw [← e2]; exact hmax)
+  have hy1 := year_le_9999_of_jde y1 m1 d1 f1 hv1 a1 b1 (by rw [← e1]; linarith)
+  rw [e1, e2]
+  exact year_strictly_increasing y1 m1 d1 y2 m2 d2 f1 f2 hv1 hv2 hy1 hy2 a1 b1 a2 b2 (by rw [← e1, ← e2]; exact hlt)
+
+/-- … and the integer part is the year `get_date` returns, for every such JDE -/
+theorem year_floor_is_calendar_year (j : ℚ) (h0 : -1 / 2 ≤ j) (hmax : j < 5373484.5) :
+    ∃ (y m : Int) (d v : ℚ), get_date j = .ok (y, m, d) ∧ year j = .ok v ∧ ⌊v⌋ = y := by
+  obtain ⟨y, m, d, f, hv, a, b, e⟩ := every_jde_is_an_instant j h0
+  have hy := year_le_9999_of_jde y m d f hv a b (by rw [← e]; exact hmax)
+  obtain ⟨v, hv1, hv2⟩ := year_floor y m d f hv hy a b
+  refine ⟨y, m, (d : ℚ) + f, v, ?_, by rw [e]; exact hv1, hv2⟩
+  rw [e]; exact roundtrip_instant y m d f hv a b
+
+/-- "Day of year equals the JDE difference to 1 January of the same year plus one", in the property's own quantifier:
+    for EVERY rational JDE in [−0.5, 5373484.5), `doy()` is the JDE minus the JDE of 1 January 0h of the year `get_date`
+    returns, plus one -/
+theorem doy_of_any_jde (j : ℚ) (h0 : -1 / 2 ≤ j) (hmax : j < 5373484.5) :
+    ∃ (y m : Int) (d : ℚ), get_date j = .ok (y, m, d) ∧ doy j = .ok (j - compute_jde y 1 1 + 1) := by
+  obtain ⟨y, m, d, f, hv, a, b, hg, e⟩ := get_date_total j h0
+  have hy := year_le_9999_of_jde y m d f hv a b (by rw [e]; exact hmax)
+  refine ⟨y, m, (d : ℚ) + f, hg, ?_⟩
+  have := doy_method y m d f hv hy a b
+  rwa [e] at this
+
 /-! ### Sidereal time -/
 
 /-- "Mean sidereal time lies in [0, 1)" — for every rational JDE. -/
@@ -243,6 +321,18 @@ theorem gmst_rate (j1 j2 : ℚ) (hday : ⌊j1 - 1 / 2⌋ = ⌊j2 - 1 / 2⌋)
   unfold Int.fract
   push_cast
   ring
+
+/-- "advances by 1.00273790935 turns per day" for ANY two instants of the stated range that lie in the same or in
+    consecutive UT days (so for every pair at most one day apart): modulo whole turns the difference is 1.00273790935 x the
+    elapsed days to 1e-8 day — exact up to the 0h shortcut inside a UT day, and the 0h polynomial itself advances by
+    0.00273790935 turn per day to 4.9e-9 over |T| ≤ 81 centuries. -/
+theorem gmst_rate_up_to_one_day (j1 j2 : ℚ) (h0 : 0 ≤ j1) (h1 : j2 ≤ 5400000)
+    (hday : ⌊j2 - 1 / 2⌋ = ⌊j1 - 1 / 2⌋ ∨ ⌊j2 - 1 / 2⌋ = ⌊j1 - 1 / 2⌋ + 1) :
+    ∃ k : Int, |mean_sidereal_time j2 - mean_sidereal_time j1 - 1.00273790935 * (j2 - j1) - (k : ℚ)| ≤ 1e-8 := by
+  rcases hday with h | h
+  · obtain ⟨k, hk⟩ := gmst_rate_same_day j1 j2 h
+    exact ⟨k, hk.trans (by norm_num)⟩
+  · exact gmst_rate_next_day j1 j2 h0 h1 h
 
 /-- at 0h UT the value is the 0h polynomial of the code (6h 41m 50.54841s + 8640184.812866 T + 0.093104 T² − 6.2e-6 T³
     seconds, reduced to a day) -/
@@ -287,6 +377,69 @@ theorem apparent_minus_mean_under_1_2s_partial (j : ℝ) (h1 : -20 ≤ (j - 2451
       < 1.2 / 86400 :=
   SiderealApparent.apparent_minus_mean_lt_1_2s j h1 h2
 
+/-- "(under 1.2 s)" on the whole past side of the nutation amplitude lemmas: every instant from 40 centuries before to
+    5 centuries after J2000.0 (years −2000 … 2500, JDE 990545 … 2634170), with the library's own true obliquity and nutation.
+    PARTIAL in the range, as above: FULL STATEMENT (not provable, false beyond JDE ≈ 3.9e6):
+    `∀ j ∈ [0, 5.4e6], |apparent j − mean j| < 1.2 / 86400`.  Missing: years −4712 … −2000 (outside the |T| ≤ 40 amplitude
+    lemmas) and 2500 … 5970 (the sum of amplitudes times cos ε exceeds 1.2 s from T ≈ +8 although the series itself does not). -/
+theorem apparent_minus_mean_under_1_2s_past_partial (j : ℝ) (h1 : -40 ≤ (j - 2451545) / 36525) (h2 : (j - 2451545) / 36525 ≤ 5) :
+    |GenR.apparent_sidereal_time j (GenR.Helio.true_obliquity j) (GenR.Helio.nutation_longitude j) - GenR.mean_sidereal_time j|
+      < 1.2 / 86400 :=
+  SiderealApparent.apparent_minus_mean_lt_1_2s_past j h1 h2
+
+/-- `get_doy` raises ValueError exactly as documented for a day below 1 or from 32 on, or a month outside 1..12 —
+    for every year and every rational day -/
+theorem doy_refuses_out_of_range (y m : Int) (d : ℚ) (h : d < 1 ∨ 32 ≤ d ∨ m < 1 ∨ 12 < m) :
+    get_doy y m d = .error .valueError := by
+  unfold get_doy
+  have : (plt d 1.0 || ple 32.0 d || decide (m < 1) || decide (m > 12)) = true := by
+    simp only [plt, ple, Bool.or_eq_true, decide_eq_true_eq]
+    rcases h with h | h | h | h
+    · left; left; left; norm_num; exact h
+    · left; left; right; norm_num; exact h
+    · left; right; exact h
+    · right; exact h
+  simp only [this, if_true]
+
+/-- a day past the end of the month is refused in both branches (formula branch ≤ 1582, datetime branch after):
+    30 February 1500, 29 February 1900, 31 April 2001 -/
+theorem doy_refuses_day_past_month_end :
+    get_doy 1500 2 30 = .error .valueError ∧ get_doy 1900 2 29 = .error .valueError ∧
+    get_doy 2001 4 31 = .error .valueError ∧ get_doy 1500 2 29 = .ok 60 ∧ get_doy 10000 1 1 = .error .valueError := by
+  decide +kernel
+
+/-- the divisor of the fractional year follows the leap rule of the calendar IN FORCE: 1500 (Julian leap year, not a
+    Gregorian one) has 366 days, 1900 has 365 -/
+theorem year_divisor_follows_calendar :
+    year (compute_jde 1500 12 31) = .ok (1500 + 365 / 366) ∧ year (compute_jde 1900 12 31) = .ok (1900 + 364 / 365) ∧
+    year (compute_jde 1582 12 31) = .ok (1582 + 354 / 365) := by
+  decide +kernel
+
+/-- the 0h branch reduces too: at 2000-01-01 0h UT the unreduced 0h value is 1.2777 and the result is below 1 -/
+theorem gmst_0h_is_reduced : 1 ≤ theta0 2451544.5 ∧ mean_sidereal_time 2451544.5 = theta0 2451544.5 - 1 := by
+  decide +kernel
+
+/-- the "at 0h" shortcut of the code is an absolute 1e-10 day: one second after 0h the rate term is applied -/
+theorem gmst_one_second_after_0h :
+    mean_sidereal_time (2451544.5 + 1 / 86400) = Int.fract (theta0 2451544.5 + 1 / 86400 * 1.00273790935) := by
+  rw [mean_sidereal_time_eq]
+  have hu : ut0 (2451544.5 + 1 / 86400) = 2451544.5 := by
+    unfold ut0
+    have : ⌊(2451544.5 + 1 / 86400 : ℚ) - 1 / 2⌋ = 2451544 := by rw [Int.floor_eq_iff]; norm_num
+    rw [this]; norm_num
+  rw [hu]
+  have : ¬ |(2451544.5 + 1 / 86400 : ℚ) - 2451544.5| < 1e-10 := by norm_num [abs_of_pos]
+  simp only [this, if_false]
+  norm_num
+
+/-- weekday names: `dow(as_string=True)` is the name of `dow()` -/
+theorem dow_str_is_name (j : ℚ) : dow_str j = day_names.getD (dow j).toNat "" ∧ dow_str j ∈ day_names := by
+  refine ⟨rfl, ?_⟩
+  unfold dow_str
+  obtain ⟨h0, h7⟩ := dow_range j
+  have : (dow j).toNat < 7 := by omega
+  interval_cases h : (dow j).toNat <;> simp [day_names]
+
 -- Non-vacuity: the hypotheses are met by concrete, non-trivial inputs.
 example : Valid 1582 10 15 ∧ weekdayGregorian 1582 10 15 = 5 ∧ weekdayGregorian 2000 1 1 = 6 := by decide
 example : Valid 1500 2 29 ∧ Valid (-4712) 12 31 ∧ Valid 1582 12 31 ∧ Valid 2000 2 29 := by decide
@@ -297,5 +450,7 @@ example : (1e-10 : ℚ) ≤ (2451545.25 : ℚ) - ut0 2451545.25 ∧ ⌊(2451545.
   unfold ut0; rw [h1, h2]; norm_num
 
 example : (-20 : ℝ) ≤ ((2451545 : ℝ) - 2451545) / 36525 ∧ ((2451545 : ℝ) - 2451545) / 36525 ≤ 5 := by norm_num
+
+example : (-40 : ℝ) ≤ ((990545 : ℝ) - 2451545) / 36525 ∧ ((990545 : ℝ) - 2451545) / 36525 ≤ 5 := by norm_num
 
 end Pymeeus.C16
